@@ -65,6 +65,7 @@ type PrintCtx struct {
 	prefix string
 
 	inGroupedMode bool
+	skipFirstSep  bool // the next serializeAttrs writes no separator before its first member
 
 	// curdir string
 
